@@ -15,6 +15,7 @@ import Snmp.Model.Fault
 import Snmp.Model.Pyth
 import Snmp.Model.Table
 import Snmp.Model.Udp
+import Snmp.Model.Trap
 open Lean Snmp
 
 namespace Driver
@@ -402,6 +403,26 @@ def udpRun (j : Json) : Except String Json := do
   pure (Json.mkObj [("sends", toJson f.sends.length), ("all_same", toJson (f.sends.all (· == packet))),
     ("open", toJson (f.opened - f.closed)), ("opened", toJson f.opened), ("elapsed", toJson f.elapsed), ("result", res)])
 
+/-! ### trap.run -/
+def trapRun (j : Json) : Except String Json := do
+  let community ← bytesOfJson (← j.getObjVal? "community")
+  let arr ← (← j.getObjVal? "dgrams").getArr?
+  let ds ← arr.toList.mapM fun e => do
+    let a ← e.getArr?
+    let arg (i : Nat) : Json := a[i]?.getD Json.null
+    let src : Trap.Source := ⟨← (arg 0).getStr?, ← (arg 1).getNat?⟩
+    match arg 2 with
+    | Json.null => pure (src, Trap.Dgram.malformed)
+    | m => pure (src, Trap.Dgram.msg ⟨← getInt m "version", ← bytesOfJson (← m.getObjVal? "community"), ← getNat m "tag",
+        ← vbsOfJson (← m.getObjVal? "vbs")⟩)
+  let out := (Trap.deliveries community ds).map fun d =>
+    toJson (#[(match d.source with | some x => toJson x.address | none => Json.null),
+      (match d.source with | some x => toJson x.port | none => Json.null), toJson d.tag, toJson (d.vbs.map vbToJson),
+      match Trap.trapInfo d with
+      | some v => pyValToJson v
+      | none => Json.null] : Array Json)
+  pure (Json.mkObj [("deliveries", toJson out)])
+
 def handle (j : Json) : Except String Json := do
   let op ← j.getObjValAs? String "op"
   match op with
@@ -417,6 +438,7 @@ def handle (j : Json) : Except String Json := do
   | "ops.run" => opsRun j
   | "cfg.run" => cfgRun j
   | "py.wrap" => pyWrap j
+  | "trap.run" => trapRun j
   | "udp.run" => udpRun j
   | "tablify" => tablifyOp j
   | "table.run" => tableRun j
